@@ -659,6 +659,16 @@ def _run_cell(cfg, cell, rng, npts, n, scratch, fd):
             t = rng.uniform(0, 1, 500) if shape == 0 else (rng.beta(1, 4, 500) if shape == 1 else rng.beta(4, 1, 500))
             cloud_vals[p] = np.clip(a + w * t, np.nextafter(lo, hi), np.nextafter(hi, lo))
         cloud = fill(m, bounds, rng, 500, cloud_vals)
+        if n % 2:
+            # use the maps once before the update (as a sampler does): nothing computed then may survive the data-dependent update
+            try:
+                with np.errstate(all="ignore"):
+                    _w = fill(m, bounds, rng, 16, {p: np.clip(cloud_vals[p][:16], np.nextafter(bounds[p][0], bounds[p][1]), np.nextafter(bounds[p][1], bounds[p][0])) for p in bounds})
+                    _, _wp, _ = m.fwd(_w, **dict(cfg["fwd"]))
+                    m.inv(_wp)
+                bump("warm_up_uses_before_update")
+            except Exception:
+                bump("warm_up_errors")
         try:
             m.update(cloud)
         except Exception as e:
